@@ -53,6 +53,7 @@ def variations(P):
     V["nw_fish_zero"] = dict(nw, fish="zero")
     V["nw_no_seasonality"] = dict(nw, seasonality="no_seasonality")
     V["nw_crops_die"] = dict(nw, crop_disruption="all_crops_die_instantly", grasses="all_crops_die_instantly")
+    V["res_shutoff_continued"] = dict(P["net_nuclear_resilient"], shutoff="continued")
     V["res_intake_disabled"] = dict(P["net_nuclear_resilient"], intake_constraints="disabled_for_humans")
     V["nw_T50"] = dict(nw, MINIMUM_PERCENT_FED_BEFORE_NONHUMAN_CONSUMPTION_ALLOWED=50)
     V["nw_large_animal_350kg"] = dict(nw, kg_meat_per_large_animal=350)
@@ -128,6 +129,8 @@ def jobs(tier, seed=0):
         res.append(dict(cc=cc, preset=name, options=copy.deepcopy(V[name])))
     # every resilient food with the human intake caps switched off
     res.append(dict(cc="DJI", preset="res_intake_disabled", options=copy.deepcopy(V["res_intake_disabled"])))
+    # ... and with feed and biofuel demand that never stops (the industrial foods then meet a feed charge)
+    res.append(dict(cc="NZL", preset="res_shutoff_continued", options=copy.deepcopy(V["res_shutoff_continued"])))
     # custom herd sizes (a numeric override that every round's herd simulation must honour)
     res.append(dict(cc="ARG", preset="net_baseline_custom_herd", options=dict(copy.deepcopy(P["net_baseline"]), meat_cattle_head=5000000, pig_head=100000)))
     # an explicit threshold together with a shut-off schedule that carries its own default threshold
